@@ -1,6 +1,7 @@
 SPECIFICATION Spec
 CONSTANTS
   H = {1, 2}
+  Val <- Val2
   Kind = "seq"
   Sorted = TRUE
   Obs <- ObsEmit
